@@ -63,6 +63,7 @@ type lfRig struct {
 	failRestartCb bool
 	aborted       bool
 	lastFails     []string
+	failedTexts   map[string]string // configuration text -> error of an earlier attempt with it
 }
 
 var lf *lfRig
@@ -72,13 +73,17 @@ func init() {
 		if serverType != "http" || lf == nil || lf.pending == nil {
 			return nil, nil
 		}
+		if lf.pending.fail == "loader-error" {
+			// (the Casketfile has become unreadable)
+			return nil, fmt.Errorf("open %s: permission denied", filepath.Join(lf.tmp, "Casketfile"))
+		}
 		return casket.CasketfileInput{Contents: []byte(lf.pending.text), Filepath: filepath.Join(lf.tmp, "Casketfile"), ServerTypeName: "http"}, nil
 	}))
 }
 
 // seeds below lfDirected are the systematic enumeration
 // (running or not) x (3 ways of loading) x (every failure kind)
-const lfDirected = 6 * 31
+const lfDirected = 6 * 32
 
 var lfFailKinds = []string{
 	"syntax", "unknown-directive",
@@ -87,6 +92,7 @@ var lfFailKinds = []string{
 	"missing:import", "missing:htpasswd", "missing:tlscert", "missing:markdown-template", "bad:htpasswd",
 	"bad:htpasswd-user", "bad:tlscert-garbage", "bad:import-syntax",
 	"port-in-use", "startup-callback:log", "startup-callback:simcb", "restart-callback",
+	"loader-error",
 }
 
 func sha(pass string) string {
@@ -199,7 +205,7 @@ func (r *lfRig) failLines(cfg *lfCfg, fail, root string) string {
 	case "missing:htpasswd":
 		return "\tbasicauth /m bob htpasswd=does-not-exist.ht\n"
 	case "bad:htpasswd":
-		os.WriteFile(filepath.Join(root, "bad.ht"), []byte("this line has no colon\n"), 0644)
+		os.WriteFile(filepath.Join(root, "bad.ht"), []byte("bob:"+sha("hunter2")+"\nthis line has no colon\nzed:"+sha("z")+"\n"), 0644) // (the named user comes before the broken line)
 		return "\tbasicauth /m bob htpasswd=bad.ht\n"
 	case "bad:htpasswd-user":
 		// a well-formed htpasswd file that does not contain the named user
@@ -455,8 +461,18 @@ func runLoadfail(c *sim.Ctl) {
 		if fail == "restart-callback" && (m != "restart" && m != "sigusr1") {
 			fail = "args:header"
 		}
-		r.attempt(lfAttempt{method: m, cfg: r.genCfg(fail)})
+		if fail == "loader-error" && (m != "start" && m != "sigusr1") {
+			fail = "missing:import" // the API takes the configuration text itself: no loader involved
+		}
+		a := lfAttempt{method: m, cfg: r.genCfg(fail)}
+		r.attempt(a)
 		desc = append(desc, m+":"+orOK(fail))
+		if fail != "" && !r.aborted && (directed || st.Draw(3) == 0) {
+			// the same attempt once more: its outcome must not depend on the first one
+			c.Step++
+			r.attempt(a)
+			desc = append(desc, "again")
+		}
 	}
 	// ---- finally a valid configuration must load and behave as specified ----
 	if !r.aborted {
@@ -573,7 +589,18 @@ func (r *lfRig) attempt(a lfAttempt) {
 		expectFail = false // validation does not listen or run callbacks
 	}
 	if expectFail && err == nil {
+		if prev, ok := r.failedTexts[cfg.text]; ok {
+			c.Violate("C08/outcome-depends-on-history", a.method+"/"+cfg.fail, "%s of a configuration (%s) that failed before in this process with %q now succeeds: the outcome of a load must depend on the configuration and the environment only", a.method, cfg.fail, prev)
+			r.aborted = true
+			return
+		}
 		panic(fmt.Sprintf("harness: attempt %s with failure kind %q unexpectedly succeeded:\n%s", a.method, cfg.fail, cfg.text))
+	}
+	if expectFail {
+		if r.failedTexts == nil {
+			r.failedTexts = map[string]string{}
+		}
+		r.failedTexts[cfg.text] = err.Error()
 	}
 	if !expectFail && err != nil {
 		c.Violate("C08/valid-load-failed", a.method+"/after:"+r.prevFails(), "%s of valid configuration %s failed: %v", a.method, cfg.label, err)
